@@ -505,11 +505,12 @@ static void log_cb(int sev, const char *msg)
 }
 
 /* ------------------------------------------------------------------ commands */
-static void free_base(int fail)
+static void free_base(int fail, int in_cb)
 {
 	int i;
 	if (!g_dns) return;
-	printf("FREE %lld %d\n", (long long)now_rel(), fail);
+	service_all();    /* whatever was transmitted before the free is logged before it */
+	printf("FREE %lld %d %d\n", (long long)now_rel(), fail, in_cb);
 	evdns_base_free(g_dns, fail);
 	g_dns = NULL;
 	for (i = 0; i < MAXREQ; i++) if (g_req[i].issued && !g_req[i].done) { g_req[i].handle = NULL; }
@@ -577,12 +578,13 @@ static void run_cmd(char *line, int in_cb)
 		int rid = atoi(tok[1]);
 		struct ureq *u = &g_req[rid];
 		if (!g_dns || !u->issued || !u->handle || u->done || u->ncb) { printf("XSKIP %d %lld\n", rid, (long long)now_rel()); return; }
+		service_all();
 		printf("XDONE %d %lld %d\n", rid, (long long)now_rel(), in_cb);
 		if (u->kind == RK_GAI) evdns_getaddrinfo_cancel(u->handle);
 		else evdns_cancel_request(g_dns, u->handle);
 		vh_stat(u->kind == RK_GAI ? "gai_cancels" : "cancels");
 	} else if (!strcmp(c, "F") && n >= 2) {
-		free_base(atoi(tok[1]));
+		free_base(atoi(tok[1]), in_cb);
 	} else if (in_cb) {
 		die("command not allowed inside a callback");
 	} else if (!strcmp(c, "B")) {
@@ -714,7 +716,7 @@ static void case_begin(long idx)
 }
 static void case_end(void)
 {
-	if (g_dns) free_base(0);
+	if (g_dns) free_base(0, 0);
 	settle();
 	printf("POSTFREE %lld\n", (long long)now_rel());
 	advance(120 * 1000000LL);
